@@ -333,6 +333,53 @@ pub fn c07(tier: &str, seed: u64) -> i32 {
     let limit = if thorough { 900.0 } else { 45.0 };
     let t0 = ctx.run.elapsed();
     let (jdone, configs_seen, bad_configs, mut complete) = c07_exec(&mut ctx, &cfg, &jobs, limit, "");
+    // typed maps under every table parameter: an i64 map with three raw byte keys that denote the same
+    // number in different lengths ([7], 7 as 8 little-endian bytes, [7,0]), a u64 map likewise, a string map
+    // with a key, the key plus NUL and a non-UTF-8 key: small tables put them into one chain, large tables do not
+    let mut typed_done: Vec<String> = Vec::new();
+    if !ctx.run.too_many() {
+        let odd: Vec<Vec<u8>> = vec![vec![7], 7u64.to_le_bytes().to_vec(), vec![7, 0]];
+        let strs: Vec<Vec<u8>> = vec![b"ab".to_vec(), b"ab\0".to_vec(), vec![b'a', 0xFF]];
+        for (kt, keys, name) in [(KtId::I64, odd.clone(), "i64 map, raw keys [7] / 7 as 8 bytes / [7,0]"), (KtId::U64, odd.clone(), "u64 map, raw keys [7] / 7 as 8 bytes / [7,0]"), (KtId::Str, strs, "string map, keys ab / ab+NUL / a+0xFF")] {
+            let mut mt = std_map(kt, 64, 1, 8, seed, "t");
+            mt.keys = keys;
+            let mut c2 = cfg.clone();
+            c2.maps = vec![mt];
+            c2.val_lens = vec![10, 300, 5000];
+            ctx.pool.reinit(vec![{
+                let mut b = Buf::new();
+                b.u8(JOB_B_CONFIG).bytes(&c2.enc());
+                b.0
+            }]);
+            ctx.pool.watchdog = std::time::Duration::from_secs(8);
+            let mut tjobs: Vec<(Params, Vec<Vec<u8>>, &'static str)> = Vec::new();
+            for t in table_params() {
+                if matches!(t, HtP::Default) {
+                    continue;
+                }
+                let p = Params { ht: t, ..d };
+                if thorough {
+                    for c in chunked(&h3, 600) {
+                        tjobs.push((p, c, "all depth-3 sequences"));
+                    }
+                } else {
+                    tjobs.push((p, h2.clone(), "all depth-2 sequences"));
+                }
+                tjobs.push((p, hfix.clone(), "fixed histories"));
+            }
+            let (jd, seen, bad, comp) = c07_exec(&mut ctx, &c2, &tjobs, if thorough { 300.0 } else { 15.0 }, &format!("{}:", kt.name()));
+            eprintln!("[C07] {name}: jobs={jd} configurations={} failing={} complete={comp}", seen.len(), bad.len());
+            typed_done.push(format!("{name}: {} table parameters, {} jobs", seen.len(), jd));
+            if !comp {
+                complete = false;
+            }
+        }
+        ctx.pool.reinit(vec![{
+            let mut b = Buf::new();
+            b.u8(JOB_B_CONFIG).bytes(&cfg.enc());
+            b.0
+        }]);
+    }
     // the alternative cargo feature sets of the crate: the workers are rebuilt with each of them
     // (./check builds them for the thorough tier); the format may differ from the documented default,
     // so only the model and the re-open oracle are used there
@@ -385,6 +432,7 @@ pub fn c07(tier: &str, seed: u64) -> i32 {
         ("jobs_done", J::Int(jdone as i64)),
         ("jobs_total", J::Int(jobs.len() as i64)),
         ("alternative_feature_sets", J::Arr(alt_done.iter().map(|x| J::s(x)).collect())),
+        ("typed_maps_under_every_table_parameter", J::Arr(typed_done.iter().map(|x| J::s(x)).collect())),
     ]));
     for p in singles.iter().step_by(9).chain(pairs.iter().step_by(97)) {
         ctx.run.sample(J::s(&p.label()));
